@@ -447,51 +447,4 @@ theorem getFlags_err {data : Bytes} {consumed : Nat} {flags : Int} {idx : Nat} {
   | case2 b0 b1 rest consumed flags idx p flags' hz ih => exact ih h
   | case3 => cases h; rfl
 
-/-! ## `C08_result_size` is false: a table reports the CLAIMED end, so bytes can be decoded twice -/
-
-/-- copy of `Props.nodes` (Props/C08.lean imports this file, so it cannot be referenced here) -/
-def nodeCount : PyVal → Nat
-  | .list vs => 1 + nodeCountL vs
-  | .dict kvs => 1 + nodeCountE kvs
-  | .str s => 1 + s.length
-  | .bytes b => 1 + b.length
-  | .bytearray b => 1 + b.length
-  | _ => 1
-where
-  nodeCountL : List PyVal → Nat
-    | [] => 0
-    | v :: vs => nodeCount v + nodeCountL vs
-  nodeCountE : List (Str × PyVal) → Nat
-    | [] => 0
-    | (k, v) :: es => k.length + nodeCount v + nodeCountE es
-
-def cxBytes : Bytes := [65, 0,0,0,18, 70,0,0,0,1,12, 70,0,0,0,1,6, 70,0,0,0,1,0]
-
-def cxValue : PyVal :=
-  .list [.dict [([70,0,0,0,1,6,70,0,0,0,1,0], .none)], .dict [([70,0,0,0,1,0], .none)], .dict [([], .none)]]
-
-set_option maxRecDepth 100000 in
-/-- the 23 bytes decode (with the top-level fuel) to a value with three overlapping keys:
-each of the three tables claims length 1, reads one entry whose key runs to the end of the
-input, and reports 5 bytes consumed, so the enclosing array decodes the next table from bytes
-that were already part of the previous key -/
-theorem cx_decodes : embeddedValue cxBytes = .ok (23, cxValue) := by rfl
-
-theorem cx_nodes : nodeCount cxValue = 25 := by decide
-
-/-- `C08_result_size` (stated with `nodeCount`, a verbatim copy of `Props.nodes`) does not hold -/
-theorem result_size_counterexample :
-    ∃ (f : Nat) (bs : Bytes) (c : Nat) (v : PyVal),
-      embedded f bs = .ok (c, v) ∧ ¬ nodeCount v ≤ bs.length + 1 :=
-  ⟨fuelFor cxBytes, cxBytes, 23, cxValue, cx_decodes, by rw [cx_nodes]; decide⟩
-
-/-- second instance, from the family `(A len32 F 0 0 0 1 0)^n V` in which block `k` decodes to
-`[ {'': X}, X ]` with `X` the value of block `k+1` (so the size doubles per 11 bytes): `n = 2` -/
-def cxExp2 : Bytes := [65,0,0,0,18, 70,0,0,0,1,0,  65,0,0,0,7, 70,0,0,0,1,0,  86]
-
-set_option maxRecDepth 100000 in
-theorem cxExp2_decodes : embeddedValue cxExp2 = .ok (23,
-    .list [.dict [([], .list [.dict [([], .none)], .none])], .list [.dict [([], .none)], .none]]) := by
-  rfl
-
 end Pamqp.Proofs
